@@ -191,6 +191,15 @@ Theorem C18_T2_exp_smul : forall S k,
 Proof. intros. destruct_tuples. split; reflexivity. Qed.
 Print Assumptions C18_T2_exp_smul.
 
+(* scalar on the left (Twist2.__rmul__): k*S = S*k, and (k*S).exp() = S.exp(k) as computations *)
+Theorem C18_T2_rmul_is_smul : forall S k,
+  tr_T2_rsmul Rops S k = tr_T2_smul Rops S k /\
+  tr_T2_rsmulexp_rev Rops S k = tr_T2_exp_rev Rops S k /\ pc_tr_T2_rsmulexp_rev Rops S k = pc_tr_T2_exp_rev Rops S k.
+Proof.
+  intros. destruct_tuples. split; [|split; reflexivity]. gen_unfold. tuple_eq ltac:(ring).
+Qed.
+Print Assumptions C18_T2_rmul_is_smul.
+
 Theorem C18_T2_smul_inv_se2_forms : forall S k,
   tr_T2_smul Rops S k = (let '(v0,v1,w) := S in (k*v0, k*v1, k*w)) /\
   tr_T2_inv Rops S = (let '(v0,v1,w) := S in (-v0, -v1, -w)) /\
